@@ -1348,6 +1348,30 @@ namespace bloch::runtime {
             for (const auto& v : cls->staticStorage) markValue(v);
         }
         markValue(m_returnValue);
+        // References held by the interpreter's own C++ temporaries (arguments being gathered for
+        // a pending call, a receiver, a value in flight, a scope that is just being released) are
+        // invisible to the roots above. An object that has more owners than references from other
+        // heap objects is held from outside the heap and is therefore a root as well.
+        {
+            std::unordered_map<const Object*, long> internalRefs;
+            for (const auto& obj : objects) {
+                for (const auto& f : obj->fields) {
+                    if (f.type == Value::Type::Object && f.objectValue)
+                        ++internalRefs[f.objectValue.get()];
+                    else if (f.type == Value::Type::ObjectArray)
+                        for (const auto& o : f.objectArray)
+                            if (o)
+                                ++internalRefs[o.get()];
+                }
+            }
+            for (const auto& obj : objects) {
+                long owners = obj.use_count() - 1;  // minus the reference held by 'objects'
+                auto it = internalRefs.find(obj.get());
+                long internal = it == internalRefs.end() ? 0 : it->second;
+                if (owners > internal)
+                    markObject(obj);
+            }
+        }
         // Sweep unmarked non-tracked objects
         std::vector<std::shared_ptr<Object>> unreachable;
         for (auto& obj : objects) {
